@@ -223,7 +223,7 @@ let okey = function Some k -> zi k | None -> "?"
 let oval = function Some v -> zi v | None -> "?"
 
 type lstate = LRr of (z, z) rrl | LLru of bool * (z, z) lrul | LFifo of (z, z) fifol
-            | LLfuda of (z, z) lfdl | LTtl of bool * (z, z) ttll | LUm of (z, z) uml
+            | LLfuda of (z, z) lfdl | LLfu of (z, z) lfdl | LTtl of bool * (z, z) ttll | LUm of (z, z) uml
 
 let dump_l = function
   | LRr s ->
@@ -258,7 +258,8 @@ let rec take_until_end l e = match l with
   | [] -> []
   | x :: r -> (match e with It n when n = x -> [] | _ -> x :: take_until_end r e)
 
-let dump_l2 = function
+let rec dump_l2 = function
+  | LLfu s -> dump_l2 (LLfuda s)
   | LLfuda s ->
     let ix = sorted_index s.dl_index in
     "W used=" ^ string_of_int (int_of_nat s.dl_used) ^ " list=" ^ nats s.dl_list ^ " end=" ^ it_s s.dl_end
@@ -296,6 +297,7 @@ let dump_l2 = function
   | x -> dump_l x
 
 let l_init_cfg (c : case) = match c.kind with
+  | 4 -> LLfu (zl_lfuda_init (nat_of_int c.cap) (z_of_int 1) (nat_of_int 1) (nat_of_int 0))
   | 5 -> LLfuda (zl_lfuda_init (nat_of_int c.cap) (z_of_int c.tick) (nat_of_int c.rnum) (nat_of_int c.rk))
   | 6 -> LTtl (false, zl_ttl_init (nat_of_int c.cap) Z0)
   | 7 -> LTtl (true, zl_ttl_init (nat_of_int c.cap) (z_of_int c.ttl))
@@ -314,6 +316,7 @@ let l_step st o now rnd = match st with
   | LLru (m, s) -> (match zl_lru_step m s o now rnd with Ok (s', r) -> Ok (LLru (m, s'), r) | UB w -> UB w)
   | LFifo s -> (match zl_fifo_step s o now rnd with Ok (s', r) -> Ok (LFifo s', r) | UB w -> UB w)
   | LLfuda s -> (match zl_lfuda_step s o now rnd with Ok (s', r) -> Ok (LLfuda s', r) | UB w -> UB w)
+  | LLfu s -> (match zl_lfu_step s o now rnd with Ok (s', r) -> Ok (LLfu s', r) | UB w -> UB w)
   | LTtl (u, s) -> (match zl_ttl_step u s o now rnd with Ok (s', r) -> Ok (LTtl (u, s'), r) | UB w -> UB w)
   | LUm s -> (match zl_um_step s o now rnd with Ok (s', r) -> Ok (LUm s', r) | UB w -> UB w)
 
@@ -321,7 +324,7 @@ let l_step st o now rnd = match st with
 let run_case_wb (c : case) (impl : string array) : (int * string * string * string) option * int =
   let ops = List.filter_map (function LOp (now, o, raw) -> Some (now, o, raw) | LProbe _ -> None) c.lines in
   let get i = if i < Array.length impl then impl.(i) else "<missing>" in
-  let st = ref (if c.kind >= 5 then l_init_cfg c else l_init c.kind c.cap) in
+  let st = ref (if c.kind >= 4 then l_init_cfg c else l_init c.kind c.cap) in
   let res = ref None in
   let i = ref 0 in
   List.iter (fun (now, o, raw) ->
